@@ -14,7 +14,7 @@ for arg in sys.argv[1:]:
     dst = f"/verif/seeded/{arg_dst}"
     os.makedirs(dst, exist_ok=True)
     for f in os.listdir(src):
-        if f == 'patch.diff' or f.endswith('.py'):
+        if f in ('patch.diff', 'patch.orig.diff') or f.endswith(('.py', '.v', '.sv')):
             shutil.copy(os.path.join(src, f), dst)
     meta = json.load(open(os.path.join(src, 'meta.json')))
     meta['id'] = arg_dst
